@@ -161,7 +161,7 @@ func patchShardFile(part, replay string, fail *kit.Failure) {
 	}
 	if len(sf) == 0 {
 		sf = map[string]any{"prop": prop, "part": part, "evaluations": 0, "nontrivial_hashes": []string{},
-			"classes": map[string]int{}, "excluded": map[string]int{}, "samples": []any{}, "notes": []string{}, "extra": map[string]any{}}
+			"classes": map[string]int{}, "excluded": map[string]int{}, "samples": []any{}, "notes": []string{}, "extra": map[string]any{}, "wall_s": 0}
 	}
 	vs, _ := sf["violations"].([]any)
 	sf["violations"] = append(vs, map[string]any{"replay": replay, "kind": fail.Kind, "msg": fail.Msg})
